@@ -35,16 +35,29 @@ Definition coin_sched_b (r : Z) (c : gcoin) : bool := dec (gc_amt c - gc_bal c) 
 Definition gauge_ok_b (t : Z) (g : bgauge) : bool :=
   (negb (g_start g <? g_end g) || (1000 <=? g_end g - g_start g)) && (g_start g <=? t) && forallb coin_basic_b (g_coins g) &&
   (if (t <=? g_end g) && (g_start g <? g_end g) then forallb (coin_sched_b (ratio_at g t)) (g_coins g) else true).
+Fixpoint nodup_b (l : list N) : bool :=
+  match l with [] => true | x :: r => negb (mem_key x r) && nodup_b r end.
+Lemma nodup_b_sound l : nodup_b l = true -> NoDup l.
+Proof.
+  induction l as [|x r IH]; cbn; intros H; [constructor|].
+  apply andb_true_iff in H as [Hx Hr]. constructor; [|exact (IH Hr)].
+  intros C. apply negb_true_iff in Hx. unfold mem_key in Hx.
+  assert (existsb (N.eqb x) r = true) as E by (apply existsb_exists; exists x; split; [exact C | apply N.eqb_refl]).
+  rewrite E in Hx. discriminate.
+Qed.
+Definition file_ok_b (f : bfile) : bool := (1 <=? bf_interval f) && nodup_b (map sl_key (bf_slots f)).
+
 Definition inv_check (b : bstate) : bool :=
   (1 <=? ss_check_window (b_s b)) && (1 <=? b_proof_window b) &&
-  forallb (fun f => 1 <=? bf_interval f) (ss_files (b_s b)) &&
+  forallb file_ok_b (ss_files (b_s b)) &&
   forallb (gauge_ok_b (b_now b)) (ss_gauges (b_s b)).
 
 Lemma inv_check_sound b : inv_check b = true -> Inv b.
 Proof.
   unfold inv_check, Inv. rewrite !andb_true_iff, !Z.leb_le, !forallb_forall.
   intros [[[Hc Hp] Hf] Hg]. repeat split; try assumption.
-  - apply Forall_forall. intros f Hin. apply Z.leb_le. exact (Hf f Hin).
+  - apply Forall_forall. intros f Hin. specialize (Hf f Hin). unfold file_ok_b in Hf.
+    apply andb_true_iff in Hf as [Hi Hn]. split; [apply Z.leb_le; exact Hi | apply nodup_b_sound; exact Hn].
   - apply Forall_forall. intros g Hin. specialize (Hg g Hin). unfold gauge_ok_b in Hg.
     rewrite !andb_true_iff, Z.leb_le, forallb_forall in Hg. destruct Hg as [[[Hm Hs] Hb] Hc'].
     unfold gauge_ok. repeat split; try assumption.
